@@ -741,6 +741,22 @@ func c17Run(r *core.Run) {
 			}
 		}
 	}
+	// indentations made of blanks only, spread differently over the two options (and over the charset)
+	for _, o := range []c17Opts{{"", "  ", ""}, {"", "", "  "}, {"", " ", " "}, {"", "   ", " "}, {"", " ", "   "}, {" ", "", " "}, {"", "\t", ""}, {"", "", "\t"}, {"", " \t", ""}, {"", "", " \t"}} {
+		for _, op := range c17CharsetOps[:2] {
+			l.Evals++
+			l.Transitions++
+			l.Traces++
+			l.States++
+			l.NonTrivial++
+			if bad, kind := c17Judge(c17Build(o), o, op); bad != "" {
+				l.Class("mismatch")
+				l.Violate(kind+"/blank-indentations/"+op.Kind, bad+fmt.Sprintf(" [options %+q, %s(%d)]", o, op.Kind, op.Status), c17Case{Opts: o, Kind: "charset:" + op.Kind, Status: op.Status})
+			} else {
+				l.Class("blank-indentations")
+			}
+		}
+	}
 	r.Bounds["charset_names"] = c17Charsets
 	r.Merge(l)
 }
